@@ -248,6 +248,8 @@ def next_version(rng, ver):
 TOGGLES = ["expand_vectors", "replace_constant_values", "detect_aliases", "replace_parameter_values",
            "verbose", "check_balanced", "expand_mx", "eliminate_constant_assignments"]
 LIBS = [[1], [2], [1, 2], [2, 1], []]
+# eliminable_variable_expression is a regular expression whose VALUE matters (Main has tmp_a, aux_b, _c)
+REGEXES = ["tmp_.*", "aux_.*", "_.*"]
 
 
 def gen_history(rng, maxops, stream):
@@ -277,6 +279,8 @@ def gen_history(rng, maxops, stream):
         opts = {"codegen": True, "library_folders": libs0}
     if rng.random() < 0.3:
         opts[rng.choice(TOGGLES)] = True
+    if rng.random() < 0.2:
+        opts["eliminable_variable_expression"] = rng.choice(REGEXES)
     opts0 = dict(opts)
     ops = []
     hi = clock          # upper bound of every cache mtime so far
@@ -359,12 +363,21 @@ def gen_history(rng, maxops, stream):
             opts["mtime_check"] = not opts.get("mtime_check", True)
         elif stream == "nocache" and y < 0.5:
             opts["cache"] = not opts.get("cache", False)
+        elif y < 0.75 and rng.random() < 0.5:
+            # a non-boolean option: switch between None and the regular expressions
+            cur = opts.get("eliminable_variable_expression")
+            new = rng.choice([r for r in REGEXES + [None] if r != cur])
+            if new is None:
+                del opts["eliminable_variable_expression"]
+            else:
+                opts["eliminable_variable_expression"] = new
         else:
             k = rng.choice(TOGGLES)
-            if opts.get(k):
+            if k in opts and rng.random() < 0.7:
                 del opts[k]
             else:
-                opts[k] = True
+                # boolean options also come as 1 (== True: same dictionary), 0, and 2 (trueish but != True)
+                opts[k] = rng.choice([True, True, 1, 2, 0] if k != "verbose" else [True, 1])
         ops.append(["opts", opts])
     if ops[-1][0] != "transfer":
         ops.append(["transfer", max(clock, hi) + 1])
@@ -403,6 +416,17 @@ def directed(tab):
     H.append({"files0": [[0, 0, 990, 1]], "ops": [["transfer", 1001], ["add", 1, 3, 1002, 6], ["transfer", 1003], ["edit", 1, 3, 1004, 7], ["transfer", 1005]]})
     H.append({"files0": [[0, 0, 990, 1], [2, 2, 990, 2]], "opts0": dict(o, library_folders=[2]),
               "ops": [["transfer", 1001], ["edit", 2, 2, 1002, 6], ["transfer", 1003]]})
+    # non-boolean option values: two different regular expressions; 1 == True but 2 != True
+    for r1, r2 in (("tmp_.*", "aux_.*"), ("_.*", "tmp_.*")):
+        H.append({"opts0": dict(o, eliminable_variable_expression=r1),
+                  "ops": [["transfer", 1001], ["opts", dict(o, eliminable_variable_expression=r2)], ["transfer", 1002],
+                          ["opts", o], ["transfer", 1003], ["opts", dict(o, eliminable_variable_expression=r1)], ["transfer", 1004]]})
+    H.append({"opts0": dict(o, expand_vectors=True),
+              "ops": [["transfer", 1001], ["opts", dict(o, expand_vectors=1)], ["transfer", 1002], ["opts", dict(o, expand_vectors=2)],
+                      ["transfer", 1003], ["opts", dict(o, expand_vectors=0)], ["transfer", 1004], ["opts", o], ["transfer", 1005]]})
+    H.append({"stream": "codegen", "opts0": {"codegen": True, "expand_mx": True, "library_folders": [1], "eliminable_variable_expression": "tmp_.*"},
+              "ops": [["transfer", 1001], ["opts", {"codegen": True, "expand_mx": True, "library_folders": [1], "eliminable_variable_expression": "aux_.*"}],
+                      ["transfer", 1002], ["transfer", 1003]]})
     # platform change: pickled caches are portable, code-generated ones are not
     H.append({"ops": [["transfer", 1001], ["os", 1], ["transfer", 1002], ["os", 0], ["transfer", 1003]]})
     cg = {"codegen": True, "library_folders": [1]}
@@ -548,9 +572,9 @@ def enc_opts(tab, o, valtab):
         v = m[k]
         if k == "library_folders":
             e = [int(x) for x in v]
-        elif v is True:
+        elif isinstance(v, (bool, int)) and v == 1:     # Python: 1 == True, the dictionaries compare equal
             e = [1]
-        elif v is False:
+        elif isinstance(v, (bool, int)) and v == 0:
             e = [0]
         elif v is None:
             e = []
@@ -624,7 +648,7 @@ def run(ctx):
     # S3 inputs (the children run while coqc checks Props and the tie)
     cases = directed(tab)
     n_dir = len(cases)
-    n_core, n_lib, n_opt, n_noc, n_del, n_cg = ctx.scaled((90, 25, 8, 8, 16, 6), (1800, 400, 150, 150, 250, 40))
+    n_core, n_lib, n_opt, n_noc, n_del, n_cg = ctx.scaled((60, 20, 6, 6, 12, 4), (1800, 400, 150, 150, 250, 40))
     maxops = ctx.scaled(8, 14)
     for stream, k in (("core", n_core), ("lib", n_lib), ("optout", n_opt), ("nocache", n_noc), ("delete", n_del), ("codegen", n_cg)):
         for _ in range(k):
@@ -638,6 +662,22 @@ def run(ctx):
         tie(ctx, tab)
         ph["props+tie"] = round(time.time() - t0, 1)
         results = fut.result()
+    # a harness time-out is not a verdict: re-run such a history once, alone; still no result -> inconclusive
+    inconclusive = []
+    for i, r in enumerate(results):
+        if "calls" not in r:
+            r2 = core.run_child(ctx, "c20", [cases[i]], timeout=900)[0]
+            if "calls" in r2 or r2.get("crash") != -999:
+                results[i] = r2
+            if "calls" not in results[i] and results[i].get("crash") == -999:
+                inconclusive.append(i)
+    if inconclusive:
+        ctx.notes["inconclusive_histories"] = {
+            "count": len(inconclusive), "why": "child timed out twice (batch and alone); not a C20 verdict",
+            "first": cases[inconclusive[0]]}
+        keep = [i for i in range(len(cases)) if i not in set(inconclusive)]
+        cases = [cases[i] for i in keep]
+        results = [results[i] for i in keep]
     ph["props+tie|children"] = round(time.time() - t0, 1)
     ctx.notes["phase_s"] = ph
     # (a) oracle
@@ -689,7 +729,7 @@ def run(ctx):
                        "mtime_check, %d toggling cache, %d deleting/renaming sources in use, %d in codegen mode (real C compiles); non-trivial = at least two transfer_model calls and at least one "
                        "edit/add/option/version change, distinct by (initial tree, options, op list)"
                        % (n_dir, maxops + 1, n_core, n_lib, n_opt, n_noc, n_del, n_cg))
-    ctx.cov["samples"] = [cases[n_dir]["ops"][:8], cases[n_dir + n_core]["ops"][:8]]
+    ctx.cov["samples"] = [cases[min(n_dir, len(cases) - 1)]["ops"][:8], cases[min(n_dir + n_core, len(cases) - 1)]["ops"][:8]]
     ctx.notes["input_distribution"] = {"ops": dist, "calls": seen, "histories": len(cases)}
     ctx.notes["observations"] = {
         "calls_served_stale_after_deleting_or_renaming_a_source_in_use": stale_after_delete,
